@@ -158,3 +158,102 @@ Section Routing.
     rewrite G1, R. cbn [bind]. rewrite S2, R3. eexists; split; eauto.
   Qed.
 End Routing.
+
+(** * fork and bracket with a pack of n functions (Model/RoutePack.v) *)
+From UV Require Import Model.RoutePack.
+
+Section PackLaws.
+  Variable V : Type.
+  Notation fn := (RoutePack.fn V).
+
+  Lemma max_args_ge (ops : list fn) f : In f ops -> fst f <= max_args V ops.
+  Proof. unfold max_args. induction ops; cbn [In fold_right]; [tauto|]. intros [<-|H]; [lia|]. specialize (IHops H). lia. Qed.
+
+  Lemma F2_length {A B} (R : A -> B -> Prop) l l' : Forall2 R l l' -> length l = length l'.
+  Proof. induction 1; cbn; auto. Qed.
+
+  Lemma comb_app {A B} (l1 l2 : list A) (m1 m2 : list B) : length l1 = length m1 ->
+    combine (l1 ++ l2) (m1 ++ m2) = combine l1 m1 ++ combine l2 m2.
+  Proof. revert m1; induction l1; destruct m1; cbn; intros; try discriminate; auto. f_equal; auto. Qed.
+
+  Lemma run_fn_routed (f : fn) (a t o : list V) : length a = fst f -> snd f a = Some o ->
+    run_fn V f (a ++ t) = Some (o ++ t).
+  Proof.
+    intros L H. unfold run_fn. rewrite app_length.
+    replace (length a + length t <? fst f) with false by (symmetry; apply Nat.ltb_ge; lia).
+    rewrite firstn_exact, skipn_exact by auto. rewrite H. reflexivity.
+  Qed.
+
+  (** the n-ary fork routing law: every function of the pack receives the top [sa f] of the
+      [max sa] arguments; the results lie in pack order on what was beneath *)
+  Theorem fork_pack_spec (ops : list fn) (args rest : list V) (outs : list (list V)) :
+    ops <> [] -> length args = max_args V ops ->
+    Forall2 (fun op o => snd op (firstn (fst op) args) = Some o) ops outs ->
+    fork_pack V false ops (args ++ rest) = Some (concat outs ++ rest).
+  Proof.
+    intros Hne L F. unfold fork_pack. rewrite app_length.
+    replace (length args + length rest <? max_args V ops) with false by (symmetry; apply Nat.ltb_ge; lia).
+    rewrite firstn_exact, skipn_exact by auto.
+    destruct ops as [|first others]; [congruence|]. inversion F as [|? o1 ? lo H1 Ft]; subst.
+    assert (Hfold : forall (l : list fn) lo', Forall2 (fun op o => snd op (firstn (fst op) args) = Some o) l lo' ->
+              (forall f, In f l -> fst f <= length args) ->
+              fold_left (step V (fun op => firstn (fst op) args)) (rev l) (Some rest) = Some (concat lo' ++ rest)).
+    { induction 1 as [|a o l lo' Ha _ IH]; intros Hle; cbn [rev fold_left concat app]; auto.
+      rewrite fold_left_app, IH by (intros; apply Hle; right; auto). cbn [fold_left step].
+      rewrite (run_fn_routed a (firstn (fst a) args) _ o); auto.
+      - rewrite app_assoc. reflexivity.
+      - apply firstn_length_le. apply Hle; left; auto. }
+    rewrite (Hfold others lo Ft).
+    - rewrite (run_fn_routed first (firstn (fst first) args) _ o1); auto.
+      + cbn [concat]. rewrite app_assoc. reflexivity.
+      + apply firstn_length_le. rewrite L. apply max_args_ge. left; auto.
+    - intros f Hf. rewrite L. apply max_args_ge. right; auto.
+  Qed.
+
+  (** the n-ary bracket routing law: consecutive argument groups, results in pack order *)
+  Theorem bracket_pack_spec : forall (ops : list fn) (groups outs : list (list V)) (rest : list V),
+    Forall2 (fun op g => length g = fst op) ops groups ->
+    Forall2 (fun op_g o => snd (fst op_g) (snd op_g) = Some o) (combine ops groups) outs ->
+    bracket_pack V ops (concat groups ++ rest) = Some (concat outs ++ rest).
+  Proof.
+    intros ops groups outs rest FG FO. unfold bracket_pack.
+    destruct (rev ops) as [|last init_rev] eqn:ER.
+    - apply (f_equal (@rev _)) in ER. rewrite rev_involutive in ER. subst ops. inversion FG; subst. inversion FO; subst. reflexivity.
+    - apply (f_equal (@rev _)) in ER. rewrite rev_involutive in ER. cbn [rev] in ER. subst ops.
+      set (init := rev init_rev) in *.
+      apply Forall2_app_inv_l in FG. destruct FG as (gi & gl & FGi & FGl & ->).
+      inversion FGl as [|? glast ? ? Hl Hnil]; subst. inversion Hnil; subst.
+      assert (Lc : length init = length gi) by (eapply F2_length; eauto).
+      rewrite comb_app in FO by auto. apply Forall2_app_inv_l in FO. destruct FO as (oi & ol & FOi & FOl & ->).
+      cbn [combine] in FOl. inversion FOl as [|? olast ? ? Ho Hn2]; subst. inversion Hn2; subst. cbn [fst snd] in Ho.
+      rewrite !concat_app. cbn [concat]. rewrite !app_nil_r, <- !app_assoc.
+      assert (Hpop : forall (l : list fn) (gs : list (list V)) t, Forall2 (fun op g => length g = fst op) l gs ->
+                pop_groups V l (concat gs ++ t) = Some (combine l gs, t)).
+      { induction 1 as [|f g l gs Hg _ IH]; cbn [pop_groups concat combine app]; auto.
+        rewrite <- app_assoc, app_length.
+        replace (length g + length (concat gs ++ t) <? fst f) with false by (symmetry; apply Nat.ltb_ge; lia).
+        rewrite skipn_exact, firstn_exact by auto. rewrite IH. reflexivity. }
+      rewrite (Hpop init gi (glast ++ rest) FGi).
+      rewrite (run_fn_routed last glast rest olast) by auto.
+      assert (Hfold : forall (l : list (fn * list V)) lo s,
+                Forall2 (fun op_g o => snd (fst op_g) (snd op_g) = Some o) l lo ->
+                Forall (fun g => length (snd g) = fst (fst g)) l ->
+                fold_left (fun acc g => match acc with Some s => run_fn V (fst g) (snd g ++ s) | None => None end)
+                          (rev l) (Some s) = Some (concat lo ++ s)).
+      { induction 1 as [|a o l lo Ha _ IH]; intros Hlen; cbn [rev fold_left concat app]; auto.
+        inversion Hlen; subst. rewrite fold_left_app, IH by auto. cbn [fold_left].
+        rewrite (run_fn_routed (fst a) (snd a) _ o); auto. rewrite app_assoc. reflexivity. }
+      rewrite (Hfold (combine init gi) oi (olast ++ rest) FOi); auto.
+      clear -FGi. induction FGi; cbn [combine]; constructor; auto.
+  Qed.
+End PackLaws.
+
+(** the seeded defect (`.rev().take(k)` for the first function) breaks the law as soon as the first
+    function takes fewer arguments than the maximum: `⊃(¯|+|×) 3 5` *)
+Example fork_pack_mutant_refuted :
+  let ops := [(1, fun a => match a with [x] => Some [Z.opp x] | _ => None end);
+              (2, fun a => match a with [x; y] => Some [(y + x)%Z] | _ => None end);
+              (2, fun a => match a with [x; y] => Some [(y * x)%Z] | _ => None end)] in
+  fork_pack Z false ops [3; 5; 99]%Z = Some [-3; 8; 15; 99]%Z /\
+  fork_pack Z true ops [3; 5; 99]%Z = Some [-5; 8; 15; 99]%Z.
+Proof. split; reflexivity. Qed.
